@@ -120,13 +120,35 @@ def live(c):
             for hb in (range(5) if s["proto"] != 772 else (3, 4)):
                 for bit in ((0, 7) if c.quick else range(8)):
                     scns.append(dict(s, fault="hdrflip", dir=e["dir"], idx=e["idx"], off=hb, bit=bit))
+    # long-lived connections: more than 256 records in one direction (the per-direction sequence number crosses a byte boundary) and a record
+    # presented again 1, 2, 255, 256, 257 positions later -- a replay must be refused wherever it lands
+    longbase = []
+    for proto in (257, 771, 772):
+        cred = "tlcp_d2" if proto == 257 else "srv_d2"
+        longbase.append({"proto": proto, "scred": cred, "ctrust": "trust_root", "cs": "m300,r1:8,x", "ss": "r300:64,w1,r1:8", "_dir": "c2s"})
+        longbase.append({"proto": proto, "scred": cred, "ctrust": "trust_root", "cs": "w1,r300:64,x", "ss": "r1:8,m300,r1:8", "_dir": "s2c"})
+    lh = tlslib.run_scenarios([dict({k: v for k, v in s.items() if k != "_dir"}, id=1000 + i) for i, s in enumerate(longbase)], tag="c11lh", procs=6)
+    for s0, r in zip(longbase, lh):
+        evs = r["events"]
+        if not r["complete"] or evs[-1].get("crc") != 1:
+            raise RuntimeError("honest 300-record baseline failed for %s" % s0)
+        s = {k: v for k, v in s0.items() if k != "_dir"}
+        scns.append(dict(s))                                            # the honest long run is validated too
+        first_w = min(i for i, e in enumerate(evs) if e["e"] == "WriteBegin")
+        apprec = [e for e in evs[first_w:] if e["e"] == "Rec" and e["rtype"] == 23 and e["dir"] == s0["_dir"]]
+        k0 = apprec[0]["idx"]
+        if c.quick and s0["_dir"] == "s2c" and s0["proto"] != 771:
+            continue
+        for start in ((k0,) if c.quick else (k0, k0 + 1, k0 + 7, k0 + 40)):
+            for dist in ((1, 256) if c.quick else (1, 2, 255, 256, 257)):
+                scns.append(dict(s, fault="replay", dir=s0["_dir"], idx=start, off=dist))
     for i, s in enumerate(scns):
         s["id"] = i + 1
     res = tlslib.run_scenarios(scns, tag="c11l", procs=16, timeout=2000)
     execs = []
     for r in res:
         s = r["scn"]
-        key = "c11:live:p%s:%s:%s:%s:off=%s:bit=%s" % (s["proto"], s["fault"], s["dir"], s["idx"], s.get("off", 0), s.get("bit", 0))
+        key = "c11:live:p%s:%s:%s:%s:off=%s:bit=%s" % (s["proto"], s.get("fault", "none"), s.get("dir", "-"), s.get("idx", 0), s.get("off", 0), s.get("bit", 0)) + (":long" if "m300" in s["cs"] + s["ss"] else "")
         c.count(1, key)
         if r["san"] or not r["complete"]:
             c.violation(key + ":crash", "driver died or sanitizer report: %s" % (r["san"] or "incomplete"), {"scenario": s, "stderr": r["stderr"][-2000:]})
